@@ -1167,7 +1167,7 @@ class Facts:
         if key not in self._views:
             import inline
             raws = {p: x.raw for p, x in self.bodies.items()}
-            self._views[key] = Body(inline.inline_into(b.raw, raws, lambda p: p in names), self)
+            self._views[key] = Body(inline.inline_into(b.raw, raws, lambda p: p in names, through_traits=False), self)
         return self._views[key]
 
     # ---- lookup ------------------------------------------------------------
